@@ -565,14 +565,12 @@ class Flux(Obligation):
     assembled nondimensional profile the three total fluxes equal their far-upstream values (C12.dim.* shows that the
     dimensional fluxes are a common scale times these).
 
-    The energy claim is proved in steps, each of them a z3-decided claim on terms of the real code:
-      (a) flux_i == C0 * K_i, K_i = the constant the real dPdx subtracts at node i (the energy flux of the equilibrium
-          state on the node's side of M = 1, obtained by calling the same real functions with the same arguments);
-          proved with the node density, K_i, P0, C0 generalised to free variables;
-      (b) C0 * K_i == upstream total energy flux.  Downstream side: with the contract residuals (res_mom, res_en) of the
-          real momentum_and_energy kept as terms, first density(Pr1, M1) == rho1 and T(Pr1, M1) == T1, then, rewriting with
-          these two, C0*K - upstream == M0 * res_en / rho1^2 (an identity; res_en == 0 is the fsolve contract);
-      (c) flux_i == upstream, assuming (b) for the generalised K."""
+    Claims are generalised before they reach z3 (class Rew): P0, C0, the node density and (FLD) the flux-limiter values
+    become free variables, so each balance is proved as the structural identity it is.  Where the code evaluates the
+    downstream equilibrium state, density(Pr1, M1) and temperature(Pr1, M1) are rewritten to the fsolve root (rho1, T1);
+    both rewrites are claims of their own, proved from the contract residual res_mom == 0.  The energy balance of the
+    downstream end state is the identity (flux - upstream) rho1^2 == M0 res_en in the energy residual of the real
+    momentum_and_energy (res_en == 0 is the contract); relaxation-side nodes are compared with that end state."""
 
     def __init__(self, variant, exps=False, eps=False, nodes=(0, 1, 2, 3, 4, 5)):
         self.variant, self.exps, self.eps, self.nodes = variant, exps, eps, tuple(nodes)
@@ -643,17 +641,6 @@ class Flux(Obligation):
         out['SIE'] = prof.SIE
         out.update(P0=prob.P0, C0=prob.C0, rho1=prof.rho1, T1=prof.T1, M1=prof.M1, speed1=prof.speed1)
         out['res_mom'], out['res_en'] = (_RES[0], _RES[1]) if sym_ else (0.0, 0.0)
-        # K_i: the constant the code subtracts in dPdx at node i, through the same real calls with the same arguments
-        fn = ut.fnctn
-        y0, y1 = (prof.Er0, prof.Er1) if self.fld else (prof.Pr0, prof.Pr1)
-        Ks = []
-        for i in range(6):
-            y, m_ = (y0, prof.M0) if i < 3 else (y1, prof.M1)
-            ctx_ = patched(prof, Lambda=prof.Lambda[i], R=prof.R[i]) if self.fld else contextlib.nullcontext()
-            with ctx_:
-                Ks.append(fn.mat_beta(y, m_, prof) * (fn.mat_total_energy(y, m_, prof)
-                                                      + prob.P0 * fn.rad_flux2(y, m_, prof)))
-        out['K'] = H.arr(Ks) if sym_ else np.array([float(k) for k in Ks])
         if self.fld:
             out['Lambda'], out['R'] = prof.Lambda, prof.R
         return out
@@ -717,13 +704,19 @@ class Flux(Obligation):
         if That is not None:
             cx.eq('downstream node: temperature(Pr1, M1) == T1 (rewriting density := rho1)', R5(That), T1, when=root)
             R5.let(That, T1)
+        def total_energy_flux(i):
+            rho, u, p, e, Fr = (cx[k][i] for k in ('Density', 'Speed', 'Pressure', 'SIE', 'Fr'))
+            return u * (rho * u * u / 2 + rho * e + p) + P0 * C0 * Fr, sc(cx, u * rho * u * u / 2, u * rho * e, u * p, P0 * C0 * Fr)
         for i in self.nodes:
             nm = NODE_NAMES[i]
             rho, u, p, e, Tm = (cx[k][i] for k in ('Density', 'Speed', 'Pressure', 'SIE', 'Tm'))
             Tr = None if self.sn else cx['Tr'][i]
-            Pr, Er, Fr, Mi, K = (cx[k][i] for k in ('Pr', 'Er', 'Fr', 'Mach', 'K'))
-            # interior nodes: the node density (and, for the energy claims, the subtracted constant) generalised as well
-            Rn = R0 if i == 0 else (R5 if i == 5 else Rew(cx, R0).let(rho, 'r'))
+            Pr, Er, Fr, Mi = (cx[k][i] for k in ('Pr', 'Er', 'Fr', 'Mach'))
+            # interior nodes: the node density generalised to a free variable r (the balances below are structural in it);
+            # downstream side: density(Pr1, M1) := rho1 and temperature(Pr1, M1) := T1 (both proved above) wherever the
+            # code evaluates the downstream equilibrium state
+            side = R0 if i < 3 else R5
+            Rn = side if i in (0, 5) else Rew(cx, side).let(rho, 'r')
             okr = okP & pos(cx, Rn(rho))
             cx.eq('mass flux at the %s node == M0' % nm, Rn(rho * u), M0, when=okr)
             cx.eq('total momentum flux (with radiation pressure) at the %s node == upstream value' % nm,
@@ -735,42 +728,32 @@ class Flux(Obligation):
                 cx.eq('radiation temperature: Tr^4 == Er at the %s node' % nm, Rn(Tr * Tr * Tr * Tr), Rn(Er), when=okr)
             if not self.fld and not self.sn:
                 cx.eq('Eddington closure: Pr == Er/3 at the %s node' % nm, Rn(Pr * 3), Rn(Er), when=okr)
-            flux = u * (rho * u * u / 2 + rho * e + p) + P0 * C0 * Fr
-            # (a) what the code conserves by construction
-            Ra = Rn if i in (0, 5) else Rew(cx, Rn).let(K, 'k')
-            kv = Ra(K)
-            cx.eq('(a) energy flux at the %s node == C0 * (constant subtracted by dPdx there)' % nm,
-                  Ra(flux), C0v * kv, when=okr, scale=sc(cx, u * rho * u * u / 2, u * rho * e, u * p, P0 * C0 * Fr))
+            # ---- total energy flux.  Upstream side: directly against the upstream value.  Downstream side: interior nodes
+            # against the downstream end node (structural), the end node against the upstream value as an identity in the
+            # energy residual of the real momentum_and_energy (res_en == 0 is the fsolve contract).
+            flux, fsc = total_energy_flux(i)
             if self.sn:
-                # with a transported Eddington factor the subtracted constant is the same on each side of M = 1 by
-                # construction; that it equals the analytic upstream value needs f == 1/3 in the two end states, i.e. a
-                # converged transport solution: outside the claim
-                j = 0 if i < 3 else 5
-                cx.eq('constant subtracted by dPdx at the %s node == the one of the %s end state' % (nm, NODE_NAMES[j]),
-                      R0(K), R0(cx['K'][j]), when=okP)
-            # (b) that constant is the upstream total energy flux
+                # transported Eddington factor: the flux is constant on each side of M = 1 by construction; equality of the
+                # two constants with the analytic upstream value needs f == 1/3 in both end states (a converged transport
+                # solution): outside the claim
+                if i not in (0, 5):
+                    j = 0 if i < 3 else 5
+                    cx.eq('total energy flux (with radiation flux) at the %s node == at the %s end node' % (nm, NODE_NAMES[j]),
+                          Rn(flux), side(total_energy_flux(j)[0]), when=okr, scale=fsc)
             elif i < 3:
-                cx.eq('(b) constant subtracted by dPdx at the %s node == upstream total energy flux' % nm,
-                      C0v * R0(K), en_up, when=okP)
+                cx.eq('total energy flux (with radiation flux) at the %s node == upstream value' % nm, Rn(flux), en_up,
+                      when=okr, scale=fsc)
+            elif i < 5:
+                cx.eq('total energy flux (with radiation flux) at the %s node == at the downstream end node' % nm,
+                      Rn(flux), R5(total_energy_flux(5)[0]), when=okr, scale=fsc)
             else:
-                cx.eq('(b) constant subtracted by dPdx at the %s node == upstream total energy flux (fsolve contract)' % nm,
-                      (C0v * R5(K) - en_up) * rho1 * rho1, M0 * R0(cx['res_en']) if cx.symbolic else 0.0, when=okP,
-                      scale=None if cx.symbolic else [en_up * rho1 * rho1])
-            # (c) the property, given (a) and (b)
-            if self.sn:
-                pass
-            elif i == 5:
-                # (a) and (b) as hypotheses, both sides named: an instance of transitivity
-                fl, ck = (SymReal(T.var('flux5')), SymReal(T.var('C0K5'))) if cx.symbolic else (Ra(flux), C0v * kv)
-                cx.eq('total energy flux (with radiation flux) at the %s node == upstream value' % nm,
-                      fl, en_up, when=near(cx, fl, ck) & near(cx, ck, en_up))
-            else:
-                cx.eq('total energy flux (with radiation flux) at the %s node == upstream value' % nm,
-                      Ra(flux), en_up, when=okr & near(cx, C0v * kv, en_up))
+                cx.eq('(total energy flux downstream - upstream) * rho1^2 == M0 * energy residual (fsolve contract: == 0)',
+                      (R5(flux) - en_up) * rho1 * rho1, M0 * R0(cx['res_en']) if cx.symbolic else 0.0, when=okP,
+                      scale=sc(cx, en_up * rho1 * rho1))
             if i in (0, 5) and not self.sn:
-                cx.eq('%s state in radiative equilibrium: T_rad == T_mat' % nm, Ra(Tr), Ra(Tm), when=okr)
-                cx.eq('%s state in radiative equilibrium: radiation flux == (4/3) beta Er' % nm, Ra(Fr * C0 * 3),
-                      Ra(4 * u * Er), when=okr)
+                cx.eq('%s state in radiative equilibrium: T_rad == T_mat' % nm, Rn(Tr), Rn(Tm), when=okr)
+                cx.eq('%s state in radiative equilibrium: radiation flux == (4/3) beta Er' % nm, Rn(Fr * C0 * 3),
+                      Rn(4 * u * Er), when=okr)
             if i == 0:
                 cx.eq('upstream density == 1 (rho0 after scaling)', R0(rho), 1, when=okP)
                 cx.eq('upstream speed == M0 (M0 a0 after scaling)', R0(u), M0, when=okP)
